@@ -9,7 +9,8 @@ IFC = "acnportal.acnsim.interface.Interface."
 IIC = "acnportal.acnsim.interface.InfrastructureInfo."
 INFRA = [IFC + "_infrastructure_info", IFC + "infrastructure_info", IIC + "__init__", IIC + "get_station_index",
          "acnportal.acnsim.network.charging_network.ChargingNetwork._update_info_store", "acnportal.acnsim.network.charging_network.ChargingNetwork.register_evse"]
-ACCESSORS = [IFC + "max_pilot_signal", IFC + "min_pilot_signal", IFC + "evse_voltage", IFC + "evse_phase", IFC + "remaining_amp_periods"]
+ACCESSORS = [IFC + "max_pilot_signal", IFC + "min_pilot_signal", IFC + "evse_voltage", IFC + "evse_phase", IFC + "remaining_amp_periods",
+             IFC + "allowable_pilot_signals", IFC + "max_recompute_time", IFC + "_violation_tolerance", IFC + "_relative_tolerance"]
 OBSERVE = ["acnportal.acnsim.network.charging_network.ChargingNetwork.active_evs", "acnportal.acnsim.simulator.Simulator.get_active_evs",
            "acnportal.acnsim.simulator.Simulator.index_of_evse", IFC + "_active_sessions", IFC + "active_sessions", IFC + "last_actual_charging_rate",
            IFC + "last_applied_pilot_signals", IFC + "current_time", IFC + "current_datetime", IFC + "period", IFC + "get_prev_peak"]
@@ -190,7 +191,11 @@ PLAN = {
              "previous period; last_applied_pilot_signals is empty in the first two periods and afterwards maps the active sessions that had arrived to "
              "pilot_signals[station row, t-1]; current_time / period / get_prev_peak / current_datetime (= start + t x period) return the simulator's values; "
              "at the scheduler call site in run the well-formedness these accessors need (every connected EV carries its station's id) is discharged from the "
-             "loop invariant. BOUNDED: isolation against arbitrary mutation (everything handed out is scribbled over, the simulator state digest must not "
+             "loop invariant. The station descriptions themselves are TRUE: ChargingNetwork._update_info_store (loop invariant; no longer an assumed contract) "
+             "fills entry i of the cached max / min pilots, allowable lists and continuity flags with what the i-th registered station's own property "
+             "returns, register_evse refreshes them, Interface.allowable_pilot_signals / max_recompute_time / the tolerance accessors return the network's / "
+             "simulator's values, and Simulator.__init__ attaches the scheduler through an Interface on this simulator (register_interface and its overrides). "
+             "BOUNDED: isolation against arbitrary mutation (everything handed out is scribbled over, the simulator state digest must not "
              "change) and the observations re-checked natively at every invocation of every seeded scenario.",
         note="the scheduler itself is an assumed contract; the observation accessors require: connected sessions have distinct session ids and departure / "
              "estimated departure after arrival (type invariant of valid sessions, not carried by the run-loop invariant); deepcopy per A-LIB (fresh, "
